@@ -2384,6 +2384,9 @@ class Wallet(object):
             return []
         network, account_id, _ = self._get_account_defaults(network, account_id)
         cosigner_id = cosigner_id if cosigner_id is not None else self.cosigner_id
+        if not self.multisig:
+            # The keys of a wallet without cosigners have no cosigner ID
+            cosigner_id = None
         level_offset_key = level_offset
         if level_offset and self.main_key and level_offset > 0:
             level_offset_key = level_offset - self.main_key.depth
